@@ -8,4 +8,6 @@ CONSTANTS
   AllowSplit = TRUE
   StartCached = FALSE
   MarkBeforePut = TRUE
+  AllowReplace = FALSE
+  DelBeforeAvail = TRUE
 INVARIANTS NoPanic OneEstablisher EstablisherOnlyWhileUnavailable StableEnd
